@@ -130,6 +130,8 @@ type GenOpts struct {
 	Profile     Profile
 	Reorgs      bool
 	MaxReorg    int
+	Sectors     int                                                              // > 0: contract data mostly whole sectors (World.Sectors)
+	LibProver   bool                                                             // honest proofs over sector files come from the library's provers
 	OnBlock     func(g *Gen, b *Builder)                                         // extra actions before Fill (property-specific scenarios)
 	BeforeApply func(g *Gen, honest types.Block, bs consensus.V1BlockSupplement) // sealed honest block, not yet applied (record probes here)
 	AfterBlock  func(g *Gen)                                                     // called after each applied block (e.g. to record probes)
@@ -149,6 +151,7 @@ type Gen struct {
 func NewGen(t *rapid.T, o GenOpts) *Gen {
 	n, genesis := GenNetwork(t, o.Net)
 	w := NewWorld()
+	w.Sectors, w.LibProver = o.Sectors, o.LibProver
 	w.RegisterGenesis()
 	ch, _, err := NewChain(n, genesis)
 	if err != nil {
